@@ -332,13 +332,23 @@ def rule_mx6(ctx: Ctx) -> RuleResult:
     site = ctx.site("rxsci/operators/multiplex.py", "mux_observable.__mux.on_subscribe")
     r.instances += 1
     m = site.module
+    from .common import settled_params, with_settled
+    settled = settled_params(ctx, "rxsci/operators/multiplex.py", "mux_observable")
+
+    def nk(t):
+        """the key term with a settled parameter read as its value: the root key is (0,), written out or named"""
+        t = with_settled(t, settled)
+        if t[0] == "const" and isinstance(t[1], tuple):
+            t = ("tuple",) + tuple(("const", x) for x in t[1])
+        return t
+    ROOT = ("tuple", ("const", 0))
     paths = ctx.fn_paths(m, site.subscribe_fn, roles=site.roles)
     for p in paths:
         r.paths += 1
         seq = [e for e in p.trace if e.k == "emit" or (e.k == "call" and e.d.get("method") in ("subscribe", "subscribe_"))]
         subs = [k for k, e in enumerate(seq) if e.k == "call"]
         creates = [k for k, e in enumerate(seq) if e.k == "emit" and e.method == "on_next" and e.arg[0] == "mkevent"
-                   and e.arg[1] == "Create" and e.arg[2] == ("tuple", ("const", 0))]
+                   and e.arg[1] == "Create" and nk(e.arg[2]) == ROOT]
         ok = len(subs) == 1 and len(creates) == 1 and creates[0] < subs[0]
         r.ob(ok, lambda: Finding("MX-6", "mux_observable{create-before-subscribe}", m.where(site.subscribe_fn),
                                  "the root key (0,) must be created exactly once before the source is subscribed", trace_of(p)))
@@ -348,14 +358,14 @@ def rule_mx6(ctx: Ctx) -> RuleResult:
             r.paths += 1
             ems = emissions(p)
             ok = len(ems) == 1 and ems[0].method == "on_next" and ems[0].eff.arg[0] == "mkevent" and ems[0].eff.arg[1] == "Next" \
-                and ems[0].eff.arg[2] == ("tuple", ("const", 0)) and ems[0].eff.arg[3] == EV
+                and nk(ems[0].eff.arg[2]) == ROOT and ems[0].eff.arg[3] == EV
             r.ob(ok, lambda: mk_finding("MX-6", spec, None, {}, p, "the root must wrap every source item in exactly one Next((0,), item); it does: %s" % summary(p)))
     for spec in site.handler_specs("on_completed"):
         for p in ctx.paths(spec, None, {}):
             r.paths += 1
             ems = emissions(p)
             comp = [k for k, e in enumerate(ems) if e.method == "on_next" and e.eff.arg[0] == "mkevent" and e.eff.arg[1] == "Completed"
-                    and e.eff.arg[2] == ("tuple", ("const", 0))]
+                    and nk(e.eff.arg[2]) == ROOT]
             term = [k for k, e in enumerate(ems) if e.method in ("on_completed", "on_error")]
             raised = any(e.raised for e in ems)
             if raised:
